@@ -5,6 +5,11 @@ from props import searchprop as SP
 def engine_checks(case, eng):
     out = []
     for r in eng["results"]:
+        if case["group"] == "cut" and r.get("cut", -1) >= 0 and len(r.get("writes", [])) > r["cut"]:
+            out.append({"spec": r.get("spec"), "writes_before_cut": r["cut"], "writes_total": len(r["writes"]),
+                        "first_write_after_cut": r["writes"][r["cut"]],
+                        "why": "cache write made after the search had been interrupted (stop or clock at that leaf)"})
+            continue
         for w in r.get("writes", []):
             budget, flag, nodes = w[6], w[7], w[5]
             if flag != 1 or (budget >= 0 and nodes >= budget):
@@ -24,11 +29,13 @@ def run(ctx):
     def relevant(case, dv):
         return case["group"] in ("budget", "budget-probe") and dv["field"] in (
             "writes", "nodes", "engine-panic", "model-setup", "engine-setup-panic")
-    SP.corr(ctx, prop, ("budget",), relevant, "cache writes of an interrupted search differ from the model", violations, cov,
+    SP.corr(ctx, prop, ("budget", "cut"), relevant, "cache writes of an interrupted search differ from the model", violations, cov,
             engine_checks=engine_checks)
     cov["rule"] = ("positions x EVERY node budget from 1 to the size of the full search (all of them at depth<=2, "
                    "strided above 150): the complete cache-write trace (key, score, depth, bound, move, node counter, flag) "
-                   "is compared with the model's, and every engine write is checked to be made below the budget with the flag set")
+                   "is compared with the model's, and every engine write is checked to be made below the budget with the flag set; "
+                   "plus interruptions by stop and by the game clock forced at the K-th leaf evaluation (K over a Fibonacci-like grid): no cache "
+                   "write may follow the cut (observed on the engine)")
     return SP.finish(prop, gate, violations, cov)
 
 
